@@ -24,14 +24,14 @@ func TestVerifSim(t *testing.T) {
 	simkit.Main(t, simkit.Engine{
 		Name:  "raftsim",
 		Props: map[string]simkit.PropFunc{"C12": runWorld},
-		Real: []string{"multiraft.Runtime x3/x5 (scheduler, slot workers, ticker, processReady, apply pipeline, futures, compaction, leader transfer)",
+		Real: []string{"multiraft.Runtime x3/x5 (scheduler, slot workers, ticker, processReady, apply pipeline, futures, compaction, leader transfer, single-step membership changes)",
 			"etcd raft v3.6.0 RawNode (harness copy differs only in the election jitter source)",
 			"raftlog.NewMemory storage, or raftlog.DB (Pebble) on vfs.NewCrashableMem with CrashClone at crashes",
 			"raftpb protobuf codec on every hop", "timers via the synctest fake clock"},
 		Stub: []string{"multiraft.Transport (simulated network: deliver, drop, duplicate, reorder, delay, partitions, node down)",
 			"recording StateMachine (plain / Batch / DurableApplied variants, full-log or digest snapshots)",
 			"storage gate around the real Storage (serialises mutating calls per scope, parks durable operations as scheduler events in gate mode, fences dead incarnations)",
-			"clients (proposers, leader transfer, manual compaction), crash/restart/stall/partition control"},
+			"clients (proposers, leader transfer, manual compaction, membership changes), crash/restart/stall/partition control"},
 		Rule: "One run = one synctest bubble with N in {3,5} real multiraft runtimes and 1-4 slots; swarm configuration, schedule and faults all come from the tape. " +
 			"Non-trivial = at least one proposal acknowledged AND (a fault fired OR the slot's leader changed after the first acknowledgement OR a follower restored a snapshot).",
 		Assumptions: []string{"testing/synctest fake clock and quiescence semantics (go1.26.8)",
@@ -39,6 +39,8 @@ func TestVerifSim(t *testing.T) {
 			"memory storage: every completed write is durable (crash = process kill); raftlog.DB: CrashClone with 100/50/0 percent of unsynced data, snapshot chunk directories copied at the crash step (process-kill semantics)",
 			"raftlog.DB runs with WriteBatchMaxItems=1 (the cross-scope group commit timer is not exercised here)",
 			"election jitter is a pure function of (per-run salt, fake clock) instead of crypto/rand",
+			"workers >= slots whenever a slot worker can be parked (gate or stall), because multiraft visits slots in Go map order",
+			"catch-up of every replica after heal and termination of every future are probes, not verdicts (C12 speaks about replicas that reach an index)",
 			"a panic on a multiraft goroutine is caught through the goroutine registry's panic observer and reported as a violation instead of killing the worker"},
 	})
 }
